@@ -22,6 +22,7 @@ class Model:
         self.order = [lab for lab, _, _ in graph]
         fam = cfg["family"]
         self.family = "distance" if fam == "distance" else "simple"
+        self.nk = fam == "nk"  # only the start scan (emission + cut-offs) is modelled for this family
         self.only_edges = fam != "simple_n"
         self.sig = cfg.get("obs_noise", 1)
         self.sig_ne = cfg.get("obs_noise_ne") if cfg.get("obs_noise_ne") is not None else self.sig
@@ -90,6 +91,9 @@ class Model:
     # -- probabilities -------------------------------------------------------------------------
     def emis(self, d, ne=False):
         sg = self.sig_ne if ne else self.sig
+        if self.nk:  # Newson-Krumm variant: P(d) = 2 (1 - Phi(d / sigma)) = erfc(d / (sigma sqrt 2))
+            v = math.erfc(d / (sg * math.sqrt(2.0)))
+            return LOG(v) if v > 0 else -math.inf
         return -d * d / (2 * sg * sg)
 
     def trans(self, p, r, pp=None):
